@@ -55,7 +55,8 @@ structure JetDefs (fn : String → α → α) (ρ : Env α) (dim : Nat) (physIn 
   var2 : ∀ v I r c, physIn.contains v = false → r < dim → c < dim → ρ.var v I (unit2D dim r c) true
       = ∑ n ∈ range dim, (∑ m ∈ range dim, J m r * ρ.var v I (unit2D dim m n) false) * J n c
         + ∑ m ∈ range dim, ρ.var v I (unitD dim m) false * ρ.var "geo_a" [m] (unit2D dim r c) true
-  ght : ∀ k i j, ρ.var (geoHessTrfName k i j) [] (zerosD dim) false = ev (fieldOps fn) ρ (geoHessTrfDef dim k i j) 0 0
+  ght : ∀ k i j, k < dim → i < dim → j < dim →
+    ρ.var (geoHessTrfName k i j) [] (zerosD dim) false = ev (fieldOps fn) ρ (geoHessTrfDef dim k i j) 0 0
 
 /-- the variable `Jac` holds the parametric gradient of the geometry, the variable `JacInv` holds the value of its
 definition `inv(Jac)` (what evaluating the variable list in a def-before-use order gives, `schedule_sound`) -/
